@@ -626,4 +626,64 @@ theorem inscribed_output_is_inscribed (pre ct data s : Bytes) (h : inscriptionSc
       simp only [Script.isInscribed, decide_eq_true_eq]
       exact ⟨pre, 81 :: (c ++ 0 :: (d ++ [104])), by simp [Script.inscriptionMarker]⟩
 
+
+private theorem getElem?_zipIdx_map {α β : Type} (l : List α) (f : α × Nat → β) (k : Nat) :
+    (l.zipIdx.map f)[k]? = (l[k]?).map fun x => f (x, k) := by
+  simp [List.getElem?_map, List.getElem?_zipIdx]
+  cases l[k]? <;> simp
+
+private theorem setIn_at (l : List Input) (u : UTXO) (ul : Bytes) :
+    (setInUnlock (setInPrev l 1 u) 1 ul)[1]? =
+      (l[1]?).map fun i => { i with prevScript := u.script, prevSats := u.sats, unlocking := some ul } := by
+  unfold setInUnlock setInPrev
+  rw [getElem?_zipIdx_map, getElem?_zipIdx_map]
+  cases l[1]? <;> simp
+
+/-- **A completed bid spends the seller's ordinal** (variant with one dummy): whenever `AcceptBidToBuy1SatOrdinal` returns a
+    transaction for a well-formed offer, input 1 of that transaction spends exactly the seller's ordinal outpoint, carries the
+    seller's unlocking script and the ordinal's value and script, the outputs are the offer's with the bid amount and the
+    seller's script written into output 1, and the quoted fee is paid. -/
+theorem accepted_bid_spends_the_ordinal (pstx tx : Tx) (ord : UTXO) (bid : Nat) (fq : FeeQuote) (seller unlock : Bytes)
+    (hwf : ({ pstx with outputs := setOutSats pstx.outputs 1 bid } : Tx).wf)
+    (hamb : ¬ ({ pstx with outputs := setOutSats pstx.outputs 1 bid } : Tx).ambiguous)
+    (h : acceptBid pstx ord bid fq seller unlock = .ok tx) :
+    (∃ i, tx.inputs[1]? = some i ∧ i.prevTxID = ord.txid ∧ i.vout = ord.vout ∧ i.unlocking = some unlock ∧
+        i.prevSats = ord.sats ∧ i.prevScript = ord.script) ∧
+    tx.outputs = setOutScript (setOutSats pstx.outputs 1 bid) 1 seller ∧ isFeePaidEnough tx fq = true := by
+  unfold acceptBid at h
+  cases hv : validateBid pstx ord bid fq with
+  | none => simp [hv] at h
+  | some p =>
+    obtain ⟨⟨i0, hi0, ht, hvout⟩, hp, _, _, _⟩ := bid_gate_protects_outpoint pstx p ord bid fq hv
+    subst hp
+    simp only [hv] at h
+    rw [C01.clone_eq _ hwf hamb] at h
+    simp only at h
+    split at h
+    · simp at h
+    · rename_i hfee
+      simp at h
+      subst h
+      refine ⟨?_, by simp [C01.cloneNorm], by simpa using hfee⟩
+      simp only [setIn_at, C01.cloneNorm, List.getElem?_map, hi0, Option.map_some]
+      exact ⟨_, rfl, ht, hvout, rfl, rfl, rfl⟩
+
+
+/-- non-vacuity: a three-input, three-output offer for the ordinal at (07…07, 2), completed with a zero fee quote -/
+def bidOffer : Tx :=
+  { version := 1, lockTime := 0,
+    inputs := [Input.mk (List.replicate 32 1) 0 (some [0x51]) 0xffffffff 1000 (some [0x51]),
+               Input.mk (List.replicate 32 7) 2 none 0xffffffff 0 none,
+               Input.mk (List.replicate 32 3) 1 (some [0x51]) 0xffffffff 5000 (some [0x51])],
+    outputs := [{ sats := 1000, script := [0x51] }, { sats := 0, script := [0x52] }, { sats := 1, script := [0x53] }] }
+
+example : (match acceptBid bidOffer { txid := List.replicate 32 7, vout := 2, script := some [0x51], sats := 1 } 500
+      { stdSat := 0, stdBytes := 1, dataSat := 0, dataBytes := 1 } [0x54] [0x55] with
+    | .ok _ => true | .error _ => false) = true := by decide +kernel
+
+example : ({ bidOffer with outputs := setOutSats bidOffer.outputs 1 500 } : Tx).wf ∧
+    ¬ ({ bidOffer with outputs := setOutSats bidOffer.outputs 1 500 } : Tx).ambiguous :=
+  ⟨by simp [-List.reduceReplicate, Tx.wf, Input.wf, Output.wf, bidOffer, optLen, setOutSats, List.zipIdx],
+   by simp [-List.reduceReplicate, Tx.ambiguous, bidOffer]⟩
+
 end GoBT.C20
